@@ -84,6 +84,62 @@ class PGateway:
                 t.cancel()
         return bool(fed)
 
+    def stop_during_tick(self, line):
+        """Threaded flavour: a periodic save is in flight in the timer thread (it has serialised the state and waits in
+        fsync) when one more state-changing line arrives and the user calls stop(); the timer thread finishes afterwards.
+        Returns True if the overlap really happened."""
+        import threading
+        import mysensors.persistence as mp
+
+        live = [t for t in FAKE_THREADING.live() if getattr(t.function, "__name__", "") == "schedule_save"]
+        if self.flavour != "sync" or not live:
+            if line is not None:
+                self.eng.feed(line)
+            self.stop()
+            return False
+        timer = live[-1]
+        in_fsync, release = threading.Event(), threading.Event()
+        real_os = mp.os
+        tick_ident = []
+
+        class OsProxy:
+            def __getattr__(self, name):
+                return getattr(real_os, name)
+
+            @staticmethod
+            def fsync(fd):
+                real_os.fsync(fd)
+                if tick_ident and threading.get_ident() == tick_ident[0] and not release.is_set():
+                    in_fsync.set()
+                    release.wait(20)
+
+        def body():
+            tick_ident.append(threading.get_ident())
+            exc = timer.fire()
+            if exc is not None:
+                self.tick_errors.append(exc)
+
+        mp.os = OsProxy()
+        th = threading.Thread(target=body, name="vf-tick", daemon=True)
+        try:
+            th.start()
+            # either the save reaches fsync, or the tick finishes without saving (nothing to save)
+            while th.is_alive() and not in_fsync.wait(0.005):
+                pass
+            overlapped = in_fsync.is_set()
+            try:
+                if line is not None:
+                    self.eng.feed(line)
+                self.stop()
+            finally:
+                release.set()
+                th.join(20)
+        finally:
+            mp.os = real_os
+            for t in FAKE_THREADING.live():
+                t.cancel()
+        return overlapped
+
     def close(self):
         if self.loop is not None:
             try:
@@ -140,13 +196,16 @@ def run_persist_history(cfg, steps, path):
             elif k == "tick":
                 if pg.tick():
                     out["ticks"] += 1
-            elif k in ("restart", "stop"):
+            elif k in ("restart", "stop", "stop-during-tick"):
                 before = projection(pg.gw.sensors)
                 late = st[1] if len(st) > 1 else None
                 n0 = len(pg.eng.sent)
                 known = set(pg.gw.sensors)
                 try:
-                    if pg.stop(late):
+                    if k == "stop-during-tick":
+                        if pg.stop_during_tick(late):
+                            out["stops_during_a_tick"] = out.get("stops_during_a_tick", 0) + 1
+                    elif pg.stop(late):
                         out["late_lines_delivered"] = out.get("late_lines_delivered", 0) + 1
                     # what the gateway held when it stopped
                     before = projection(pg.gw.sensors)
@@ -171,7 +230,7 @@ def run_persist_history(cfg, steps, path):
                 out["restarts"].append((before, after, idx))
                 out["transient_after_load"] += transient_empty(pg.gw)
                 out["lifetimes"] += 1
-                if k == "stop":
+                if k in ("stop", "stop-during-tick"):
                     break
         out["final"] = projection(pg.gw.sensors)
     finally:
